@@ -15,6 +15,7 @@ import (
 	"strconv"
 	"strings"
 	"sync"
+	"syscall"
 	"time"
 )
 
@@ -113,6 +114,12 @@ func (w *Recorder) Read(p []byte) (int, error) {
 		panic("verif: injected crypto/rand panic (string value)")
 	case w.mode == "fail" && k == w.at:
 		n, err = 0, ErrInjected
+	case w.mode == "failenoent" && k == w.at:
+		// the shape of a missing /dev/urandom (matches fs.ErrNotExist)
+		n, err = 0, &os.PathError{Op: "open", Path: "/dev/urandom", Err: syscall.ENOENT}
+	case w.mode == "failenosys" && k == w.at:
+		// getrandom(2) not implemented (matches errors.ErrUnsupported)
+		n, err = 0, syscall.ENOSYS
 	case w.mode == "failpartial" && k == w.at && len(p) > 3:
 		n, err = w.r.Read(p[:3])
 		if err == nil {
